@@ -163,17 +163,22 @@ def build_recipe(recipe):
     return top, ports
 
 
-def convert_digest(recipe):
+def convert_digest(recipe, again=False):
     from amaranth.back import rtlil
     if "progen" in recipe:
         # a generated Module-DSL program (If/Switch/FSM bodies mixing several domains, wrappers, submodules); its domains are
         # left undeclared so that they are created implicitly
         from dsim import progen
         B = progen.build(recipe["progen"])
-        text = rtlil.convert(B.top, ports=list(B.sigs))
-        return hashlib.sha256(text.encode()).hexdigest(), text
-    top, ports = build_recipe(recipe)
-    text = rtlil.convert(top, ports=ports) if ports is not None else rtlil.convert(top)
+        top, ports = B.top, list(B.sigs)
+    else:
+        top, ports = build_recipe(recipe)
+    text = rtlil.convert(top, ports=ports)
+    if again:
+        # the very same object once more: elaboration must not leave anything behind that changes the result
+        text2 = rtlil.convert(top, ports=ports)
+        if text2 != text:
+            return "SAME-OBJECT-DIFFERS", text
     return hashlib.sha256(text.encode()).hexdigest(), text
 
 
@@ -245,7 +250,7 @@ def run_hashseed(case, res, dig, stats):
     inproc2 = []
     for r in recipes:
         try:
-            inproc1.append(convert_digest(r)[0])
+            inproc1.append(convert_digest(r, again=True)[0])
             inproc2.append(convert_digest(r)[0])
         except Exception as e:
             inproc1.append("EXC:" + type(e).__name__)
@@ -256,6 +261,8 @@ def run_hashseed(case, res, dig, stats):
             raise Violation("rtlil_differs_across_hash_seeds", i,
                             {"recipe_index": i, "digests": {str(k): v[:16] for k, v in ds.items()},
                              "implicit_domains": count_implicit(r)})
+        if inproc1[i] == "SAME-OBJECT-DIFFERS":
+            raise Violation("rtlil_differs_when_same_object_is_converted_twice", i, {"recipe_index": i})
         if inproc1[i] != inproc2[i]:
             raise Violation("rtlil_differs_between_two_builds_in_one_interpreter", i, {"recipe_index": i})
         if inproc1[i] != next(iter(ds.values())):
